@@ -5,7 +5,7 @@ from .. import poly
 from ..poly import Poly
 from ..interp import Arr, Pose, Obj, ClassRef, VFile, PathRaise, PI
 from ..algebra import run_obligation, run_tasks, record, ObFail, CDIM
-from ..g2o import VOCABULARY, eq_poly, same_vertex, same_edge, same_param
+from ..g2o import VOCABULARY, eq_poly, same_vertex, same_edge, same_param, mark_int, no_int_through_float
 from .c13 import read_line, READERS
 
 LEVEL = "other"
@@ -67,6 +67,7 @@ def reader_obligation(tag, sepname):
         if kind == "vertex":
             _, cls, n = spec
             vals = tokens(it, "t", 1 + n, unit_quat=(4, 5, 6, 7) if cls == "PoseSE3" else None)
+            mark_int(it, vals[0])
             line = make_line(it, tag, vals, sep, end)
             rcls, obj = read_line(it, line, expect="Vertex")
             if not eq_poly(it, obj.fields.get("id"), vals[0]):
@@ -78,6 +79,7 @@ def reader_obligation(tag, sepname):
             _, cls, npose, ninfo = spec
             nt = ninfo * (ninfo + 1) // 2
             vals = tokens(it, "t", 2 + npose + nt, unit_quat=(5, 6, 7, 8) if cls == "PoseSE3" else None)
+            mark_int(it, vals[0], vals[1])
             line = make_line(it, tag, vals, sep, end)
             rcls, obj = read_line(it, line, params, expect="EdgeOdometry")
             check_edge_common(it, obj, vals, 2, cls, npose, ninfo, tag)
@@ -86,6 +88,7 @@ def reader_obligation(tag, sepname):
             nt = ninfo * (ninfo + 1) // 2
             nid = 3 if ptag else 2
             vals = tokens(it, "t", nid + npose + nt)
+            mark_int(it, *vals[:nid])
             offset = None
             if ptag:
                 offset = Pose("PoseSE3", [Poly.var("off%d" % i) for i in range(7)])
@@ -108,6 +111,7 @@ def reader_obligation(tag, sepname):
         else:
             _, cls, n = spec
             vals = tokens(it, "t", 1 + n, unit_quat=(4, 5, 6, 7) if cls == "PoseSE3" else None)
+            mark_int(it, vals[0])
             line = make_line(it, tag, vals, sep, end)
             rcls, obj = read_line(it, line)
             key = obj.fields.get("key")
